@@ -57,6 +57,10 @@ func runHelp(c *Ctx) {
 								w := append(append(append([]string{}, args[:pos]...), h), args[pos:]...)
 								c.Beat()
 								helpCase(c, si, shape, as, pol, w, false)
+								if pos%2 == 0 {
+									// sub-commands with a policy of their own: the addressed command's policy decides
+									helpCase3(c, si, shape, as, pol, (pol+1+pos/2)%3, w, false, false)
+								}
 								if pos%3 == 0 {
 									// a declared version flag that is NOT the first argument is an ordinary flag: help still wins
 									helpCase2(c, si, shape, as, pol, append([]string{"-f", "-v"}, w...), true, false)
@@ -135,7 +139,11 @@ func replayHelp(c *Ctx, cs Case) {
 	}
 	ver, _ := cs["version"].(bool)
 	vd, _ := cs["version_declared"].(bool)
-	helpCase2(c, cInt(cs, "shape"), shape, assign, cInt(cs, "policy"), cStrs(cs, "args"), vd || ver, ver)
+	sp := -1
+	if f, ok := cs["sub_policy"].(float64); ok {
+		sp = int(f)
+	}
+	helpCase3(c, cInt(cs, "shape"), shape, assign, cInt(cs, "policy"), sp, cStrs(cs, "args"), vd || ver, ver)
 }
 
 func isHelp(t string) bool { return t == "-h" || t == "--help" }
@@ -146,22 +154,37 @@ func helpCase(c *Ctx, si int, shape *tnode, assign []int, pol int, args []string
 
 // versionDeclared: the root declares Version("v version"); version: the invocation is expected to print it
 func helpCase2(c *Ctx, si int, shape *tnode, assign []int, pol int, args []string, versionDeclared, version bool) {
+	helpCase3(c, si, shape, assign, pol, -1, args, versionDeclared, version)
+}
+
+// subPol >= 0: every command below the root sets this policy in its initializer (the root keeps pol)
+func helpCase3(c *Ctx, si int, shape *tnode, assign []int, pol, subPol int, args []string, versionDeclared, version bool) {
 	c.Count("evaluations", 1)
 	key := fmt.Sprintf("tree=%s specs=%s policy=%d args=%q", shapeText(shape), specsText(shape, assign), pol, args)
 	if versionDeclared {
 		key += " version-flag-declared"
 	}
-	cs := func() Case {
-		return Case{"shape": si, "kinds": assign, "policy": pol, "args": args, "version": version, "version_declared": versionDeclared}
+	var pols []int
+	if subPol >= 0 {
+		key += fmt.Sprintf(" sub-command-policy=%d", subPol)
+		pols = make([]int, len(assign))
+		for i := range pols {
+			pols[i] = subPol
+		}
+		pols[0] = pol
 	}
-	app, tr := buildTree(shape, treeOpts{kinds: assign, rootPol: pol, hooks: true, version: versionDeclared})
+	cs := func() Case {
+		return Case{"shape": si, "kinds": assign, "policy": pol, "sub_policy": subPol, "args": args, "version": version, "version_declared": versionDeclared}
+	}
+	app, tr := buildTree(shape, treeOpts{kinds: assign, pols: pols, rootPol: pol, hooks: true, version: versionDeclared})
+	effective := pol
 	o := runIsolated(func() error { return app.Run(append([]string{"app"}, args...)) })
 	obs := fmt.Sprintf("calls=%v returned=%v err=%v panicked=%v panicval=%v exits=%v stderr=%q", tr.calls, o.Returned, o.Err, o.Panicked, safeSprint(o.PanicVal), o.Exits, firstLines(o.Stderr, 3))
 	quiet := func(what string) bool { // nothing ran; exit 0 under ExitOnError, nil otherwise
 		if len(tr.calls) != 0 || o.Panicked {
 			return false
 		}
-		if pol == 1 {
+		if effective == 1 {
 			return len(o.Exits) == 1 && o.Exits[0] == 0 && !o.Returned
 		}
 		return o.Returned && o.Err == nil && len(o.Exits) == 0
@@ -195,6 +218,9 @@ func helpCase2(c *Ctx, si int, shape *tnode, assign []int, pol int, args []strin
 			cur, start = k, i+1
 		}
 	}
+	if subPol >= 0 && cur != shape {
+		effective = subPol // the policy of the command whose help is requested
+	}
 	if dd >= 0 && dd < hpos {
 		if dd < start {
 			c.Count("not_claimed_ancestor_has_marker", 1)
@@ -213,7 +239,7 @@ func helpCase2(c *Ctx, si int, shape *tnode, assign []int, pol int, args []strin
 			}
 		}
 		if r.target == nil {
-			if len(tr.calls) != 0 || (pol == 0 && o.Err == nil) {
+			if len(tr.calls) != 0 || (pol == 0 && subPol < 0 && o.Err == nil) {
 				c.Violation("C14", key, cs(), "help token after `--` is data: invocation rejected at "+r.rejectAt.path()+", nothing runs", obs)
 			}
 			return
